@@ -67,7 +67,7 @@ def _gen_script(rng, i):
   if kind == 'thrift' and rng.random() < 0.5:
     s['pool'] = {'max_watermark': rng.choice([1, 1, 2]), 'min_watermark': rng.choice([0, 1]),
                  'max_queue_len': rng.choice([0, 1, 2, 1000])}
-  template = rng.choice(['random', 'random', 'preopen', 'queue', 'connect', 'latereply', 'faults', 'members'])
+  template = rng.choice(['random', 'random', 'preopen', 'queue', 'connect', 'latereply', 'faults', 'members', 'sendq'])
   steps = s['steps']
   nc = [0]
 
@@ -99,6 +99,17 @@ def _gen_script(rng, i):
     steps.append(['fault', 0, rng.choice(['err', 'eof'])])
     steps.append(['adv', rng.choice([10, 5000, 6000])])
     issue(rng.choice([23, 53]))
+  elif template == 'sendq':
+    # the peer stops reading for a while: writes block, later requests wait in the send queue
+    # (mux) or in their transaction greenlet (serial) past their deadline
+    steps.append(['adv', 300])
+    issue(rng.choice([507, 1003]))
+    steps.append(['adv', 10])
+    steps.append(['stall', rng.choice([200, 800])])
+    issue(rng.choice([507, 1003]))
+    issue(rng.choice([23, 53, 107]))
+    steps.append(['adv', rng.choice([10, 100])])
+    issue(rng.choice([53, 107]))
   n = rng.randint(4, 16)
   for _ in range(n):
     k = rng.random()
@@ -114,6 +125,8 @@ def _gen_script(rng, i):
       steps.append(['fault', rng.randint(0, 5), rng.choice(['err', 'eof'])])
     elif k < 0.92:
       steps.append(['plan', rng.randint(0, nep - 1), rng.choice([['ok', 0], ['ok', 40], ['refuse', 0], ['hang']])])
+    elif k < 0.935:
+      steps.append(['stall', rng.choice([50, 200, 800])])
     elif k < 0.96 and template in ('members', 'random'):
       steps.append([rng.choice(['join', 'leave']), rng.randint(0, 3)])
     else:
@@ -346,7 +359,10 @@ def run_case(script):
     elif k == 'adv':
       loop.run_for(op[1] / 1000.0)
       loop.settle()
-      rec.ev.append({'e': 'Quiet', 't': rec.ms()})
+      # a quiescent point only counts while no connection's writes are blocked (a queued
+      # discard cannot reach the peer before the socket drains)
+      if not any(c.stall_until > loop.now() and not c.closed for c in net.conns):
+        rec.ev.append({'e': 'Quiet', 't': rec.ms()})
     elif k == 'fault':
       live = [c for c in net.conns if c.connected and not c.closed]
       if live:
@@ -355,6 +371,10 @@ def run_case(script):
           c.feed_error()
         else:
           c.feed_eof()
+    elif k == 'stall':
+      for c in net.conns:
+        if c.connected and not c.closed:
+          c.stall_until = max(c.stall_until, loop.now() + op[1] / 1000.0)
     elif k == 'plan':
       plans[op[1]] = list(op[2])
     elif k == 'join' or k == 'leave':
@@ -372,7 +392,8 @@ def run_case(script):
         if pr.on_leave:
           gevent.spawn(pr.on_leave, inst)
   # run past every deadline, then quiesce
-  end = max(max_deadline + 50, rec.ms() + 50)
+  stall_end = max([int((c.stall_until - EPOCH) * 1000) for c in net.conns] + [0])
+  end = max(max_deadline + 50, rec.ms() + 50, stall_end + 50)
   end = ((end + 9) // 10) * 10
   loop.run_until(EPOCH + end / 1000.0)
   loop.settle()
